@@ -455,7 +455,7 @@ func c17rGen() *rapid.Generator[c17rCase] {
 		n := rapid.IntRange(3, 30).Draw(t, "nops")
 		for i := 0; i < n; i++ {
 			switch k := rapid.IntRange(0, 19).Draw(t, "op"); {
-			case k <= 9:
+			case k <= 11:
 				op := c17rOp{K: "a", N: rapid.IntRange(0, 4).Draw(t, "n"), Over: rapid.Bool().Draw(t, "over")}
 				if rapid.IntRange(0, 2).Draw(t, "part?") == 0 {
 					op.Part = rapid.IntRange(1, 8).Draw(t, "part")
@@ -468,7 +468,7 @@ func c17rGen() *rapid.Generator[c17rCase] {
 					op.Fill = append(op.Fill, f)
 				}
 				c.Ops = append(c.Ops, op)
-			case k <= 11:
+			case k <= 12:
 				c.Ops = append(c.Ops, c17rOp{K: "s"})
 			case k <= 17:
 				op := c17rOp{K: "c"}
